@@ -450,6 +450,7 @@ def check_C10(tier):
     own = ("C10", "C14")
     inv = ["OutInGrammar", "WellFormedOut", "ReencodeFixpoint", "TwoOutcomes"]
     enc_gen_replay(rep, "bracket_default", ENC["bracket"], "default", n - 1, quick=quick, own=own, invariants=inv)
+    enc_gen_replay(rep, "hcaps_default", ENC["hcaps"], "default", n - 2, quick=quick, own=own, invariants=inv)
     enc_gen_replay(rep, "ringbranch_default", ENC["ringbranch"], "default", n + 2, quick=quick, own=own, invariants=inv)
     enc_gen_replay(rep, "stereo_default", ENC["stereo"], "default", n - 1, quick=quick, own=own, invariants=inv)
     # equivalent spellings of an atom give the same symbol
@@ -466,10 +467,10 @@ def check_C10(tier):
             kind, sel, _ = de.call_encoder(s)
             if kind == "ok" and de.call_decoder(sel)[0] != "ok":
                 rep.violation("encoder(%r) = %r is rejected by the decoder" % (s, sel), {"smiles": s})
-    extra = [gs.macrocycle(k) for k in ([0, 1, 14, 15, 16, 17, 100, 254, 255, 256, 257, 1000] if quick else
-                                        list(range(0, 40)) + list(range(250, 262)) + [1000, 4000, 4093])]
+    extra = [gs.macrocycle(k) for k in ([1, 14, 15, 16, 17, 100, 254, 255, 256, 257] if quick else
+                                        list(range(1, 40)) + list(range(250, 262)) + [400])]
     extra += [gs.long_branch(k) for k in ([0, 14, 15, 16, 255, 256, 257] if quick else
-                                          list(range(0, 40)) + list(range(250, 262)) + [1000])]
+                                          list(range(0, 40)) + list(range(250, 262)) + [400])]
     extra += ["[Fe+10]C", "[C-10]", "[Fe+20]", "[235U+6]", "[13CH3][C@@H]([NH3+])C(=O)[O-]", "[Cu+2].[O-]S(=O)(=O)[O-]"]
     corpus_trace(rep, "datasets", quick, own, [relaxed_table(), "default"], per_file=(25 if quick else 400),
                  variants=(2 if quick else 4), extra=extra)
@@ -481,15 +482,20 @@ def check_C10(tier):
 # encoder halves of C16 and C14
 # --------------------------------------------------------------------------
 
+BIG_INDEX = [4096, 4097, 4100, 4111, 4112, 4351, 4352, 8191, 8192, 12345, 65535, 65536, 70000]
+
+
 def index_table_from_spec():
     """IndexSymbols(n) for all n < 16^3, evaluated by TLC (the specification's table, not a Python copy)."""
     text = ("---- MODULE IndexTable ----\nEXTENDS Constraints, Json\n"
-            "ASSUME PrintT(ToJson([tab |-> [n \\in 1..4096 |-> IndexSymbols(n - 1)]]))\n"
+            "Big == <<" + ", ".join(str(b) for b in BIG_INDEX) + ">>\n"
+            "ASSUME PrintT(ToJson([tab |-> [n \\in 1..4096 |-> IndexSymbols(n - 1)], "
+            "big |-> [i \\in 1..Len(Big) |-> IndexSymbols(Big[i])]]))\n"
             "VARIABLE x\nInit == x = 0\nNext == UNCHANGED x\nSpec == Init /\\ [][Next]_x\n====\n")
     r, failed = de.run_const_checks(text, "IndexTable")
     for v in r.printed:
         if isinstance(v, dict) and "tab" in v:
-            return r, v["tab"]
+            return r, v["tab"], v["big"]
     raise MachineryError("IndexTable not produced:\n" + r.log[-1500:])
 
 
@@ -497,8 +503,17 @@ def index_encoder_side(rep, quick):
     """C16 through the public encoder: ring spans and branch lengths for every index value; the emitted
     index symbols must be the specification's IndexSymbols(n), and the round trip (TLC) must close the
     ring / end the branch at the right atom."""
-    r, tab = index_table_from_spec()
+    r, tab, big = index_table_from_spec()
     rep.add_tlc(r, "IndexSymbols table (TLC)")
+    # sampled larger n: the conversion itself has no three-symbol limit (the ring symbol then reads [Ring4] ...)
+    for n_, want in zip(BIG_INDEX, big):
+        if quick and n_ > 13000:
+            continue
+        kind, sel, _ = de.call_encoder(gs.macrocycle(n_))
+        rep.traces += 1
+        tail = "[Ring%d]" % len(want) + "".join(want)
+        if kind != "ok" or not sel.endswith(tail):
+            rep.violation("encoder(ring of %d atoms) does not end with %s: %s" % (n_ + 2, tail, sel[-80:] if kind == "ok" else kind), {"n": n_})
     ns = list(range(0, 300)) + list(range(304, 4096, 16)) + [255, 256, 257, 4094, 4095] if quick else list(range(0, 4096))
     ns = sorted(set(ns))
     for k in ns:
